@@ -57,6 +57,7 @@ class LocalDeps:
                 # a callee that receives `&mut x` may write x from its other arguments
                 muts = [a for a, ty in zip(t["args"], t.get("arg_tys", [])) if ty.startswith("&mut ") and a.get("k") in ("copy", "move")]
                 for m in muts:
+                    others = []
                     for a in t["args"]:
                         if a is m:
                             continue
@@ -64,6 +65,10 @@ class LocalDeps:
                         _places_in_operand(a, srcs)
                         for l, _ in srcs:
                             self.deps.setdefault(m["l"], set()).add(l)
+                            others.append(l)
+                    # ... and what it writes lands in whatever the `&mut` was borrowed from (`v.push(x)`: v depends on x)
+                    if others:
+                        through.append((m["l"], others))
         self._closure = {}
         for d, srcs in through:
             seen = {d}
